@@ -156,6 +156,14 @@ def gen_c05(ctx, quick):
     if quick and len(cases) > 140:
         ctx.rng.shuffle(cases)
         cases = cases[:140]
+    # a replica marked failed (mode request, snapshot or resize failure) that is asked to be RW again before its
+    # monitor removes it: it stays failed and comes back only through remove + add
+    for rf in (2, 3):
+        full = boot(rf, 0, list(range(1, rf)))
+        for mark in ([ev("setmode", a=1, mode="ERR")], [ev("snapshot", name=1, fs=fl((1, "snap")))], [ev("resize", size=2 * ctllib.SIZE, fs=fl((1, "resize")))]):
+            cases.append(dict(rf=rf, world=world(rf), events=full + mark + [ev("write", wid=1, off=0, len=4096), ev("setmode", a=1, mode="RW"),
+                                                                            ev("read", off=0, len=4096), ev("read", off=0, len=4096), ev("write", wid=2, off=0, len=4096),
+                                                                            ev("monfire", a=1), ev("write", wid=3, off=0, len=4096)]))
     return cases
 
 
@@ -193,6 +201,16 @@ def gen_c09(ctx, quick):
             for lead in range(q):
                 es2 = es + [ev("start", addrs=[lead, late]), ev("read", off=0, len=4096), ev("write", wid=1, off=0, len=4096)]
                 cases.append(dict(rf=rf, world=world(rf, revs=revs), events=es2))
+    # addresses of which one is a textual prefix of another (…1 and …11): only the signalled replica may start
+    revs = {a: 1 for a in range(12)}
+    revs[0] = 9
+    for rf in (3,):
+        es = [ev("register", a=10, uuid=11, rev=1), ev("register", a=5, uuid=6, rev=1),
+              ev("register", a=0, uuid=1, rev=9, fs=[dict(a=10, k="alive")]),
+              ev("start", addrs=[10]), ev("start", addrs=[5]), ev("start", addrs=[0]), ev("read", off=0, len=4096)]
+        cases.append(dict(rf=rf, world=world(12, revs=revs), events=es))
+        es = [ev("register", a=0, uuid=1, rev=9), ev("register", a=5, uuid=6, rev=1), ev("start", addrs=[10]), ev("start", addrs=[0])]
+        cases.append(dict(rf=rf, world=world(12, revs=revs), events=es))
     # a second bootstrap inside the same controller: started, every replica removed again, the replicas come
     # back one at a time (registrations of replicas that are still away must not count)
     for rf in (3,):
@@ -232,6 +250,17 @@ def gen_c13(ctx, quick):
                                                                            ev("remove", a=a), ev("snapshot", name=2)]))
             cases.append(dict(rf=rf, world=world(rf), events=full + [ev("snapshot", name=1), ev("monfail", a=rf - 1), ev("snapshot", name=2)]
                               + add(rf - 1) + [ev("snapshot", name=3)]))
+            # a start request naming all replicas (equal revision counts): the checkpoint is recorded only if every
+            # one of them reports the same latest snapshot - one of them has no snapshot / a shorter / another chain
+            def chains_with(base, a, c):
+                d = {x: list(base) for x in range(rf)}
+                d[a] = c
+                return d
+            for chains in (chains_with([5, 4], 0, [5, 4]), chains_with([5, 4], rf - 1, []), chains_with([5, 4], rf - 1, [4]), chains_with([5, 4], 0, [])):
+                es = [ev("register", a=a, uuid=a + 1, rev=1) for a in range(rf)]
+                for lead in range(rf):
+                    cases.append(dict(rf=rf, world=world(rf, chains=chains), events=es + [ev("start", addrs=[lead] + [a for a in range(rf) if a != lead]),
+                                                                                          ev("snapshot", name=9), ev("write", wid=1, off=0, len=4096)]))
             # a replica failure / removal arriving while the snapshot request is being processed
             for gate in ("http", "snap"):
                 for second in (ev("monfail", a=rf - 1), ev("remove", a=rf - 1), ev("setmode", a=0, mode="ERR")):
